@@ -3,11 +3,12 @@ CONSTANTS
   W = 99
   Back = {1, 50}
   Fwd = {0, 1, 2, 99, 100}
+  AbsLow = {5}
   Pairings = {"A", "B"}
   Foreign = {"X"}
   Iids = {1, 2}
   Vals = {1}
-  Starts = {1, 1000, 60000}
+  Starts = {1, 1000, 65437, 65500, 65535}
   KeyAtStart = {TRUE, FALSE}
   MaxSteps = 0
 CHECK_DEADLOCK FALSE
